@@ -183,8 +183,9 @@ def build(inst, k, history, slack=0.0):
         v = s["vars"][c]
         return vidx(v, m, i if s["path"] else s["ti"])
 
-    def steps(s):
-        return range(T) if s["path"] else [None]
+    def off(s, c):
+        o = s.get("offset")
+        return o[c] if o else 0.0
 
     def soft_rows(gi):
         s = inst["goals"][gi]
@@ -199,10 +200,10 @@ def build(inst, k, history, slack=0.0):
                     e = F.var(("eps", gi, m, c, i if s["path"] else None), 0.0, 1.0)
                     fi = fidx(s, c, m, i)
                     if finite(tm[c, i]):
-                        # f >= (1-eps)*tmin + eps*m
-                        F.row({fi: 1.0, e: -(lo_r - tm[c, i])}, tm[c, i], INF)
+                        # f >= (1-eps)*tmin + eps*m,  f = variable + offset
+                        F.row({fi: 1.0, e: -(lo_r - tm[c, i])}, tm[c, i] - off(s, c), INF)
                     if finite(tM[c, i]):
-                        F.row({fi: 1.0, e: -(hi_r - tM[c, i])}, -INF, tM[c, i])
+                        F.row({fi: 1.0, e: -(hi_r - tM[c, i])}, -INF, tM[c, i] - off(s, c))
 
     def critical_rows(gi):
         s = inst["goals"][gi]
@@ -218,17 +219,18 @@ def build(inst, k, history, slack=0.0):
                     lo = (tm[c, i] - rel) / nom - cr if finite(tm[c, i]) else -INF
                     hi = (tM[c, i] + rel) / nom + cr if finite(tM[c, i]) else INF
                     if lo > -INF or hi < INF:
-                        F.row({fidx(s, c, m, i): 1.0 / nom}, lo, hi)
+                        F.row({fidx(s, c, m, i): 1.0 / nom}, lo - off(s, c) / nom, hi - off(s, c) / nom)
 
     def objective_terms(gis):
         return documented_terms(inst, gis)
 
     def term_form(term):
+        """(linear form, constant) of the quantity raised to the order"""
         gi, m, c, i, coef, nom, order = term
         s = inst["goals"][gi]
         if s["kind"] == "min":
-            return {fidx(s, c, m, T_index(s, i)): 1.0 / nom}
-        return {F.var(("eps", gi, m, c, i), 0.0, 1.0): 1.0}
+            return {fidx(s, c, m, T_index(s, i)): 1.0 / nom}, off(s, c) / nom
+        return {F.var(("eps", gi, m, c, i), 0.0, 1.0): 1.0}, 0.0
 
     def T_index(s, i):
         return i if s["path"] else 0
@@ -236,24 +238,28 @@ def build(inst, k, history, slack=0.0):
     def add_objective(gis):
         for term in objective_terms(gis):
             gi, m, c, i, coef, nom, order = term
-            form = term_form(term)
+            form, k0 = term_form(term)
             if order == 1:
                 for j, a in form.items():
                     F.lin[j] = F.lin.get(j, 0.0) + coef * a
+                F.const += coef * k0
             elif order == 2:
-                F.sq.append((coef, form, 0.0))
+                F.sq.append((coef, form, k0))
             else:
                 raise ValueError("order")
 
     def objective_row(gis, lo, hi):
         row = {}
+        const = 0.0
         for term in objective_terms(gis):
             gi, m, c, i, coef, nom, order = term
             if order != 1:
                 raise ValueError("retained objective of order 2 is not linear")
-            for j, a in term_form(term).items():
+            form, k0 = term_form(term)
+            const += coef * k0
+            for j, a in form.items():
                 row[j] = row.get(j, 0.0) + coef * a
-        F.row(row, lo, hi, slack)
+        F.row(row, lo - const, hi - const, slack)
 
     cr = opts.get("constraint_relaxation", 0.0)
     fix = bool(opts.get("fix_minimized_values", False))
@@ -309,7 +315,7 @@ def build(inst, k, history, slack=0.0):
                                 if lo > hi:  # numerical crossing: the documented row is consistent
                                     lo = hi = 0.5 * (lo + hi)
                                 if lo > -INF or hi < INF:
-                                    F.row({fi: 1.0 / nom}, lo, hi, slack)
+                                    F.row({fi: 1.0 / nom}, lo - off(s, c) / nom, hi - off(s, c) / nom, slack)
         else:
             val = h["obj"]
             if fix:
